@@ -17,6 +17,9 @@ Inductive verdict := VdOk | VdErr | VdPanic.
 Inductive c8case :=
 (* a proposal delivered to the client under test: handler called | dropped | panic *)
 | CHandle (ctx : octx) (sender : amap) (p : proposal) (observed : outcome)
+(* a proposal that arrived (situation ctx0) while an update held the parent's mutex and was handled
+   when the mutex was obtained (situation ctx1) *)
+| CLocked (ctx0 ctx1 : octx) (sender : amap) (p : proposal) (observed : outcome)
 (* Accept(acc) on a delivered proposal that cannot complete: error | panic (ok never observed here) *)
 | CAccept (ctx : octx) (p : proposal) (a : accept) (idx : nat)
           (ntbl : list (bytes * Z)) (itbl : list (bytes * bytes))   (* known hash values: nonce and ID pre-images *)
@@ -67,6 +70,7 @@ Definition check_side (hn : bytes -> Z) (s : setup) (p : proposal) (o : obs) : b
 Definition good (c : c8case) : bool :=
   match c with
   | CHandle ctx sender p o => outcome_eqb (handle_proposal ctx sender p) o
+  | CLocked ctx0 ctx1 sender p o => outcome_eqb (handle_proposal_locked repaired ctx0 ctx1 sender p) o
   | CAccept ctx p a idx ntbl itbl v =>
       (* the hashes only matter for "channel already exists": the harness lists the hash values it
          knows (pre-images of the channels opened so far), every other input hashes to a fresh value *)
